@@ -63,7 +63,9 @@ CHECKS["C09"] = dict(
           "(sys.settrace, cooperative locks): all schedules with <=1 preemption at line granularity in runner and cache "
           "code plus random / sampled 2-preemption / 3-thread schedules; each execution is validated by TLC against "
           "the SingleFlight monitor (TraceSingleFlight). A long-body scenario (140 other invocations while the first caller's "
-          "invocation is in progress) covers lock-table and cache churn under an open invocation."),
+          "invocation is in progress) covers lock-table and cache churn under an open invocation. Mechanism-level binding: executions of the "
+          "leaf-call scenarios recorded at the backend calls and the per-call mutex (and the final cache of the real object) are validated as "
+          "behaviours of Threads.tla itself (TraceThreads: events are observations of the spec state, spec steps are silent; informational)."),
     ref="DESIGN.md 5/C09",
     technique="PlusCal/TLA+ model of runner+cache interleavings (TLC) + systematic schedule enumeration of real threads validated by a TLC monitor")
 
@@ -100,11 +102,15 @@ CHECKS["C02"] = dict(engine="runner", ref="DESIGN.md 5/C02",
 CHECKS["C10"] = dict(engine="runner", ref="DESIGN.md 5/C10",
     text=_RUNNER + "clauses: invocations = direct calls in order with context and argument, resources = handles obtained, dependency set = "
     "transitive closure incl. self, for every memento present after every operation (so for every memoized-before subset reached), "
-    "also after concurrent root calls (Par: provenance as after a sequential execution).",
+    "also after concurrent root calls (Par: provenance as after a sequential execution; directed: a root call and the call one of its body "
+    "steps makes, at the same time, under several schedules). Inner calls and batches are also made through ignore_result() / force_local(). "
+    "Beyond the property (informational): Memento.forget_exceptions_recursively is specified (ProgSem.ExcClosure, Runner.ForgetExc) and "
+    "validated on real histories.",
     technique="TLA+ runner mechanism spec with ProvenanceExact invariant (TLC) + TLC trace validation of memento projections of generated programs")
 CHECKS["C15"] = dict(engine="runner", ref="DESIGN.md 5/C15",
     text=_RUNNER + "clauses: batch result list (or first raised exception) = element-wise denotations in order, bodies run once per "
-    "unmemoized distinct element, store afterwards = store after individual calls.",
+    "unmemoized distinct element, store afterwards = store after individual calls; batches through ignore_result() / force_local(); batches "
+    "whose elements are cached / on disk only (written through an earlier backend object) / absent, in every order.",
     technique="TLA+ runner mechanism spec incl. bulk pre-check (TLC) + TLC trace validation of batch operations on generated programs")
 CHECKS["C16"] = dict(engine="runner", ref="DESIGN.md 5/C16",
     text=_RUNNER + "clauses: keys include the context id (results stored/served separately), recorded context of every nested invocation "
@@ -143,14 +149,16 @@ CHECKS["C13"] = dict(engine="version", ref="DESIGN.md 5/C13",
     "undefined symbol, memento<->plain swaps, clones/partials/unregistered wrappers) with version queries interleaved; each answer is "
     "compared with a fresh interpreter's answer for the resulting program (VersionMon). Spec -> code: behaviours of Version.tla generated by "
     "tlc -simulate (Version_sim.cfg) are performed on real interpreter processes; the versions answered must induce the model's equalities "
-    "and calls must be served exactly when the model serves them (informational NONCONFORMANCE lines).",
+    "and calls must be served exactly when the model serves them (informational NONCONFORMANCE lines); the model and the replay include "
+    "the cluster lock (versions already calculated are frozen).",
     technique="TLA+ model of generation counter / version cache / did_change (TLC) + TLC trace validation against fresh-interpreter ground truth")
 CHECKS["C14"] = dict(engine="version", ref="DESIGN.md 5/C14",
     text=_VER + "ClosureMon defines reachability, direct references and first-memento frontier on the logged reference graph in TLA+; "
     "dependencies() of every memento function of all three-node graphs (kinds, arbitrary edges incl. cycles, four reference forms) and of "
     "random larger graphs is validated; acyclic programs with hidden dynamic calls are called plainly and through one to three chained "
     "modifiers and must raise UndeclaredDependencyError exactly when an executed function calls outside its static closure, a function "
-    "handed over as an argument (by call or by partial) being allowed in that invocation only.",
+    "handed over as an argument (by call or by partial) being allowed in that invocation only. Graphs that change while the process lives "
+    "(an alias re-bound to another memento function, versions unchanged) are queried before and after.",
     technique="TLA+ reachability definitions evaluated by TLC on logged reference graphs (trace validation) + enforcement calls")
 
 CHECKS["C04"] = dict(engine="argkey", ref="DESIGN.md 5/C04",
@@ -159,7 +167,8 @@ CHECKS["C04"] = dict(engine="argkey", ref="DESIGN.md 5/C04",
           "computes that text and checks presentation invariance and injectivity on the definition; the harness applies SHA-256 and "
           "compares with arg_hash of the real call presentation; equivalent presentations must hit one memoized result, type- or "
           "context-different variants must miss, and the body must receive the bound values (ArgKeyMon via TraceArgKey). The same comparison "
-          "is made for every call the repository's own test suite keys (recorded by a pytest plugin through external wrappers)."),
+          "is made for every call the repository's own test suite keys (recorded by a pytest plugin through external wrappers). Nested calls: a "
+          "three-level chain entered at every level under two context dictionaries and none must run the innermost body once per dictionary."),
     technique="TLA+ reference definition of the canonical key text evaluated by TLC per case (+ laws) compared with the implementation's hash; TLC trace validation of hit/miss behaviour")
 CHECKS["C11"] = dict(engine="codec", ref="DESIGN.md 5/C11",
     text=("Codec.tla defines Wire(m), the wire document of an abstract memento (fixed field names, typed {type,value} arguments, Z suffix, "
